@@ -1,6 +1,6 @@
-CONSTANTS W = 2 Target = 1 Epochs = 1 KeepSender = FALSE JoinUnwrap = FALSE Faults <- AllFaults QMax = 2 Outcomes <- OutAll BchThreshold = 2 MaxFrames = 4
+CONSTANTS W = 2 Target = 1 Epochs = 1 KeepSender = FALSE JoinUnwrap = FALSE Faults <- AllFaults QMax = 2 Outcomes <- OutAll BchThreshold = 2 RQMax = 2 MaxFrames = 4
 SPECIFICATION Spec
 VIEW View
 CONSTRAINT FrameBound
-INVARIANTS StatsExact StopExact BchRule NoLeak FinishedLast NoCollectorPanic NoStuck ErrorOnFault
+INVARIANTS OneLinePerEbN0 LinesPrefix StatsExact StopExact BchRule NoLeak FinishedLast NoCollectorPanic NoStuck ErrorOnFault
 CHECK_DEADLOCK FALSE
